@@ -467,6 +467,67 @@ fn run_c15(args: &Args, corr: &mut Corr, rep: &mut Report) {
     });
     for r in res { merge_rep(rep, r); }
     tick("c15 far done", &t0);
+    // the one-shot entry points (Rust API and C ABI): no large_window argument, lgwin > 24 requests it
+    {
+        let tasks: Vec<(i32, i32)> = (0..=11).flat_map(|q| (-5..=40).map(move |w| (q, w))).collect();
+        let nt = tasks.len();
+        let res = par_tasks(nt, move |i| {
+            let (q, lgwin) = tasks[i];
+            let mut lines = vec![];
+            let mut rep = Report::default();
+            let lw = lgwin > 24;
+            let text: &[u8] = b"the quick brown fox jumps over the lazy dog 0123456789";
+            for input in [&b""[..], &b"ab"[..], text] {
+                for api in ["rust", "c"] {
+                    rep.evaluations += 1;
+                    let cap = BrotliEncoderMaxCompressedSize(input.len()) + 64;
+                    let case = format!("{{\"api\":{},\"quality\":{},\"lgwin\":{},\"input\":{}}}", jstr(api), q, lgwin, jstr(&hex(input)));
+                    let (ret, size, out) = if api == "rust" {
+                        match oneshot_rust(q, lgwin, input, cap) { Ok(x) => x, Err(e) => { rep.viol("header:c15:oneshot-panic", &e, case); continue; } }
+                    } else { let (r, s2, o, _) = oneshot_c(q, lgwin, input, cap); (r, s2, o) };
+                    if ret != 1 || size > cap { rep.viol("header:c15:oneshot-failed", "one-shot call failed with a buffer above the bound", case); continue; }
+                    if input.is_empty() {
+                        // the empty input is answered with the fixed one-byte stream 06 (window 16, empty last block)
+                        if out != [6u8] { rep.viol("header:c15:oneshot-empty", "empty input not answered with the stream 06", case.clone()); }
+                        else { rep.count("c15.oneshot.empty"); }
+                    } else {
+                        let mut r = BitReader::new(&out);
+                        let wb = read_wbits(&mut r);
+                        let nbits = r.pos;
+                        let shown = &out[..out.len().min(40)];
+                        if api == "rust" {
+                            lines.push((format!("header oneshothdr {} {} {} {}", q, lgwin, hex(input), hex(shown)),
+                                format!("prefix {} lgwin={} bits={} magic=0", hex(shown), wb.map_or(0, |x| x.0), nbits)));
+                        }
+                        match wb {
+                            None => rep.viol("header:c15:unreadable-wbits", "the RFC reader rejects the window bits of a one-shot stream", case.clone()),
+                            Some((declared, large)) => {
+                                let want = spec_declared(q, lgwin, lw);
+                                if declared != want { rep.viol("header:c15:oneshot-declared-window", &format!("one-shot: declared lgwin {} != clamp(requested) {}", declared, want), case.clone()); }
+                                if large != lw { rep.viol("header:c15:oneshot-large-header-mismatch", &format!("one-shot: large-window header {} but lgwin {} {} 24", large, lgwin, if lw { ">" } else { "<=" }), case.clone()); }
+                                rep.count(&format!("c15.oneshot.header_bits.{}", nbits));
+                            }
+                        }
+                    }
+                    if gdec::available() {
+                        let plain = gdec::decode(&out, false, input.len() + (1 << 16));
+                        let accepted = matches!(&plain, gdec::GResult::Ok(v) if v == input);
+                        let want_accept = !lw || input.is_empty();
+                        if accepted != want_accept {
+                            rep.viol("header:c15:oneshot-plain-decoder", &format!("libbrotlidec without the large-window option {} a one-shot stream made with lgwin {}", if accepted { "accepts" } else { "rejects" }, lgwin), case.clone());
+                        }
+                    }
+                    match dec::decode_both(&out, lw && !input.is_empty(), input) {
+                        Ok(()) => rep.nontrivial += 1,
+                        Err(e) => rep.viol("header:c15:oneshot-undecodable", &e, case),
+                    }
+                }
+            }
+            (lines, rep)
+        });
+        for (lines, r) in res { for (a, bb) in lines { corr.case(&a, &bb); } merge_rep(rep, r); }
+    }
+    tick("c15 oneshot done", &t0);
     // base-128 (hook)
     let mut vals: Vec<u64> = (0..300).collect();
     for k in 0..64 { let p = 1u64 << k; vals.extend_from_slice(&[p.wrapping_sub(1), p, p + 1]); }
@@ -552,7 +613,7 @@ fn content(kind: u32, n: usize, rng: &mut Rng) -> Vec<u8> {
     v
 }
 
-struct OsCase { q: i32, lgwin: i32, n: usize, kind: u32, gen: Option<u64> }
+struct OsCase { q: i32, lgwin: i32, n: usize, kind: u32, gen: Option<u64>, dense: bool }
 
 fn oneshot_case(c: &OsCase, seed: u64, idx: usize, lines: &mut Vec<(String, String)>, rep: &mut Report) {
     let mut rng = Rng::new(seed ^ 0x05c8 ^ ((idx as u64) << 20));
@@ -601,6 +662,7 @@ fn oneshot_case(c: &OsCase, seed: u64, idx: usize, lines: &mut Vec<(String, Stri
     let mut caps: Vec<usize> = vec![0, 1, 8.min(bound - 1), bound - 1, bound, bound + 1];
     if n > 0 { caps.push(n / 2); caps.push(n.min(bound - 1)); }
     if !stored { caps.extend_from_slice(&[t.saturating_sub(1), t, (t + 1).min(bound - 1)]); }
+    if c.dense { for d in 0..=12 { caps.push((n + d).min(bound + 1)); } }
     caps.sort();
     caps.dedup();
     for cap in caps {
@@ -741,7 +803,7 @@ fn run_c08(args: &Args, corr: &mut Corr, rep: &mut Report) {
     // stored-stream lengths (q0, lgwin 10 on incompressible data exceeds the bound => fallback)
     let mut stored_ns: Vec<usize> = vec![8192, 12000, 16383, 16384, 16385, 65535, 65536, 65537, 70000, (1 << 20) - 1, 1 << 20, (1 << 20) + 1];
     if thorough { stored_ns.extend_from_slice(&[(1 << 24) - 1, 1 << 24, (1 << 24) + 1, (1 << 24) + 65537]); }
-    for (j, &n) in stored_ns.iter().enumerate() { cases.push(OsCase { q: (j % 2) as i32, lgwin: 10, n, kind: 0, gen: Some(j as u64 + 1) }); }
+    for (j, &n) in stored_ns.iter().enumerate() { cases.push(OsCase { q: (j % 2) as i32, lgwin: 10, n, kind: 0, gen: Some(j as u64 + 1), dense: false }); }
     let small_ns: Vec<usize> = vec![0, 1, 2, 3, 15, 100, 1000, 16383, 16384, 16385, 32767, 32768, 32769, 49152, 65535, 65536, 65537];
     for q in 0..=11 {
         for &lgwin in &[10, 16, 18, 22, 24, 25] {
@@ -750,13 +812,21 @@ fn run_c08(args: &Args, corr: &mut Corr, rep: &mut Report) {
                 // quick tier: not every (n, lgwin, kind) at every quality
                 for &kind in kinds {
                     if !thorough && (j + kind as usize + q as usize + lgwin as usize) % 4 != 0 && !(n <= 3) { continue; }
-                    cases.push(OsCase { q, lgwin, n, kind, gen: None });
+                    cases.push(OsCase { q, lgwin, n, kind, gen: None, dense: false });
                 }
             }
         }
         let big_ns: &[usize] = if q <= 5 { &[(1 << 20) - 1, 1 << 20, (1 << 20) + 1] } else if thorough { &[1 << 20] } else { &[] };
-        for &n in big_ns { for &kind in &[0u32, 1] { cases.push(OsCase { q, lgwin: if q <= 1 { 18 } else { 22 }, n, kind, gen: None }); } }
-        if thorough && q <= 2 { cases.push(OsCase { q, lgwin: 22, n: (1 << 24) + 1, kind: 0, gen: None }); }
+        for &n in big_ns { for &kind in &[0u32, 1] { cases.push(OsCase { q, lgwin: if q <= 1 { 18 } else { 22 }, n, kind, gen: None, dense: false }); } }
+        if thorough && q <= 2 { cases.push(OsCase { q, lgwin: 22, n: (1 << 24) + 1, kind: 0, gen: None, dense: false }); }
+    }
+    // every buffer size from n to n + 12 (between "the input fits" and the bound) on incompressible inputs
+    // around the 5- and 6-nibble thresholds of the stored stream
+    for &q in &[0, 1, 2, 3, 5, 9, 10, 11] {
+        for &n in &[(1usize << 16) - 1, (1 << 16) + 1] { cases.push(OsCase { q, lgwin: 18, n, kind: 0, gen: None, dense: true }); }
+    }
+    for &q in &[0, 2, 5] {
+        for &n in &[(1usize << 20) - 1, 1 << 20, (1 << 20) + 1, (1 << 20) + 2] { cases.push(OsCase { q, lgwin: if q == 0 { 18 } else { 22 }, n, kind: 0, gen: None, dense: true }); }
     }
     let ncases = cases.len();
     let cases = std::sync::Arc::new(cases);
